@@ -40,6 +40,7 @@ impl Scn {
     /// `n` peers; the node bootstraps from peer 0 and learns all peers (honest find_node answers)
     pub fn new(r: &mut Rng, n: usize, server_mode: bool, settings: dht::ServerSettings) -> Scn {
         simclock::set_ms(1000);
+        simclock::unmap_all();
         tape_seed(r.next());
         let peers: Vec<Peer> = (0..n).map(|i| Peer::new(peer_id(i, r))).collect();
         let node = Manual::new(&[peers[0].addr], server_mode, settings);
